@@ -38,7 +38,7 @@ package frugal
 //@   requires buf.ptr + cap(buf) <= $brk
 //@   requires c07_caches: $(cachereq)
 //@   ensures c07_caches: $(cachereq)
-//@   modifies M[buf.ptr : buf.ptr + len(buf)], $brk, $encp, $wire, $encerr, $win, $maps, $complete, $inprog, "H.tType.Sd", $sds, $sdsidx, "P.aptr"
+//@   modifies M[buf.ptr : buf.ptr + len(buf)], $brk, $encp, $wire, $encerr, $win, $maps, $complete, $inprog, "H.tType.Sd", $sds, $sdsidx, "P.aptr", $sd0, $pfi, "P.p.tType", "P.$$p.tType", "P.map$reflect.Type$p.structDesc"
 //@   after Append ghost $wire = abs_r
 //@   after Append ghost $win = abs_b
 //@   after Append ghost $encerr = res_err
@@ -55,7 +55,7 @@ package frugal
 //@ func EncodedSize(val any) (n int)
 //@   requires c07_caches: $(cachereq)
 //@   ensures c07_caches: $(cachereq)
-//@   modifies $brk, $encp, $szerr, $maps, $complete, $inprog, "H.tType.Sd", $sds, $sdsidx, "P.aptr"
+//@   modifies $brk, $encp, $szerr, $maps, $complete, $inprog, "H.tType.Sd", $sds, $sdsidx, "P.aptr", $sd0, $pfi, "P.p.tType", "P.$$p.tType", "P.map$reflect.Type$p.structDesc"
 //@   panics when true
 //@   ensures c04_top: n == SZS(sdFor(rvOf(val)), M, $encp)
 //@   ensures c16_value: forall a Int :: {M[a]} a < old($brk) ==> M[a] == old(M[a])
@@ -66,7 +66,7 @@ package frugal
 //@   ensures c07_caches: $(cachereq)
 //@   requires len(buf) <= MAXIN && buf.ptr + len(buf) <= $brk && (len(buf) > 0 ==> buf.ptr >= 65536)
 //@   requires c16_disjoint: buf.ptr + len(buf) <= anyPtr(val) || anyPtr(val) + anySize(val) <= buf.ptr
-//@   modifies M, $brk, $initp, $maps, $complete, $inprog, "H.tType.Sd", $sds, $sdsidx, "P.aptr"
+//@   modifies M, $brk, $initp, $maps, $complete, $inprog, "H.tType.Sd", $sds, $sdsidx, "P.aptr", $sd0, $pfi, "P.p.tType", "P.$$p.tType", "P.map$reflect.Type$p.structDesc"
 //@   ensures c16_input: forall a Int :: {M[a]} buf.ptr <= a && a < buf.ptr + len(buf) ==> M[a] == old(M[a])
 //@   ensures c13_arg: rvKind(rvOf(val)) != reflect.Ptr || rvIsNil(rvOf(val)) || rtKind(rtElem(rvType(rvOf(val)))) != reflect.Struct ==> err != nil && n == 0
 //@   ensures 0 <= n && n <= len(buf)
